@@ -86,7 +86,7 @@ def worker(kp, job):
 def run(chk):
     b = core.standard_build(chk)
     model = core.Model() if b.modelrun_ok else None
-    full = chk.tier == 'thorough' or bool(b.drift) or not b.proof_ok
+    full = chk.tier == 'thorough' or bool(b.drift) or not b.proof_ok or not b.modelrun_ok
     jobs = [(chk.seed, i, 'singles') for i in range(12 if full else 3)]
     jobs += [(chk.seed, i, 'pairs') for i in range(32 if full else 8)]
     jobs += [(chk.seed, 1000 + i, 'big') for i in range(core.budget(chk, full, 50, 300))]
